@@ -257,7 +257,7 @@ static void enumerate(void) {
             "their maxima (leaf types cycle through the 8 physical types). Oracle = textbook definition computed on the tree: leaves in DFS order, max_def = optional+repeated nodes on the path, max_rep = repeated nodes; element accessors; "
             "find_column; the levels carquet reports AND the levels it uses (read_batch must return the stored levels and values). Builder: a group added as element {1,2,7,31,62..66,100,126..130,254..258,510..514,1023..1025} (the element array grows at 64,128,...) x 3 repetitions; 19 logical types (every TIME/TIMESTAMP unit x UTC flag, decimals, integers) through reference-written footers (flat and nested) and through the builder + writer; add_column sequences of length {0,1,2,63,64,65,127,128,129,1000} x 4 repetition modes x 9 type modes, "
             "accessors compared, and the file the writer produces from the schema read back by the reference reader. Non-trivial = every case; distinct by (tree, labeling, naming) key.");
-    int NT = mc_thorough() ? 7 : 6;
+    int NT = mc_thorough() ? 8 : 7;
     mc_stage("trees.all-shapes.all-labelings");
     for (int n = 1; n <= NT; n++) trees(n, 0, 0, 0, on_tree, NULL);
     mc_stage("builder.add-column-sequences");
